@@ -480,7 +480,7 @@ def main():
     t0 = time.time()
     harnesses = [dict(h) for h in prop['harnesses'] if args.tier == 'extended' or args.tier in h.get('tiers', ('quick', 'thorough'))]
     if args.only:
-        harnesses = [h for h in harnesses if args.only in h['name']]
+        harnesses = [h for h in harnesses if any(part in h['name'] for part in args.only.split('|'))]
         ONLY[0] = args.only   # partial runs never overwrite the registered evidence file
     if not harnesses:
         log('INCONCLUSIVE: no harness selected for tier %s (filter %r)' % (args.tier, args.only))
@@ -736,7 +736,7 @@ def write_evidence(pid, prop, tier, seed, results, hashes, wall, nviol, known_li
     }
     if note:
         ev['coverage']['note'] = note
-    tag = os.environ.get('VERIF_TAG', '') or ('only' if ONLY[0] else '')
+    tag = os.environ.get('VERIF_TAG', '') or ('only' if ONLY[0] else '') or ('extended' if tier == 'extended' else '')
     evdir = os.path.join(VERIF, 'logs', 'evidence-' + tag) if (tag or os.path.realpath(REPO) != '/repo') else os.path.join(VERIF, 'evidence')
     os.makedirs(evdir, exist_ok=True)
     with open(os.path.join(evdir, pid + '.json'), 'w') as f:
